@@ -258,6 +258,12 @@ def check_samplers(rep, ws):
             nm_ = 'w_hollow%d%s' % (d_, e_[0])
             tu.add(nm_, 'Vec%d<%s>& o, Rand48& r' % (d_, e_), 'o = hollowSphereRand<Vec%d<%s> >(r);' % (d_, e_))
             extra.append((nm_, d_, ty_, sz_, 'hollow', 'hollowSphereRand<V%d%s>' % (d_, e_[0])))
+    for d_ in (2, 3, 4):
+        for e_, ty_, sz_ in (('float', 'float', 4), ('double', 'double', 8)):
+            if (d_, e_) in ((3, 'float'), (2, 'double')): continue
+            nm_ = 'w_solid%d%s' % (d_, e_[0])
+            tu.add(nm_, 'Vec%d<%s>& o, Rand48& r' % (d_, e_), 'o = solidSphereRand<Vec%d<%s> >(r);' % (d_, e_))
+            extra.append((nm_, d_, ty_, sz_, 'solid', 'solidSphereRand<V%d%s>' % (d_, e_[0])))
     where = 'src/Imath/ImathRandom.h'
     try:
         bc = ws.compile(tu.name, tu.source())
